@@ -11,7 +11,7 @@ import numpy as np
 from .. import common as C
 
 PROP = "C16"
-GEN_REGIONS: List[str] = ["Dsp", "TimeShift", "DfWrappers"]
+GEN_REGIONS: List[str] = ["Dsp", "TimeShift", "DfWrappers", "GlobalState"]
 THEOREMS = {
     "SpecKitV.Lemmas.Taps": ["tap_eq_lagrange", "taps_sum_one", "taps_reproduce_poly", "tap_at_zero"],
     # the taps as translated from dsp.lagrange_taps on every run ARE the model taps, hence the Lagrange weights
@@ -31,6 +31,9 @@ THEOREMS = {
     "SpecKitV.Props.DfWrappersGen": ["gen_df_timeshift_eq_model", "gen_df_timeshift_spec", "gen_df_timeshift_input_untouched", "gen_df_timeshift_zero",
                                      "gen_df_timeshift_truncate_false_eq_true", "gen_df_timeshift_rejects_iff", "gen_df_timeshift_column_interpolant",
                                      "gen_df_timeshift_defaults", "DfSpec.rows_trunc", "DfSpec.rows_empty", "DfAux.col?_setCol", "DfAux.names_setCol"],
+    # no state outlives a call in the files this property is anchored in (no module/class-level containers, memoisers, mutable defaults) and the
+    # decorators are exactly the audited ones (region GlobalState, re-scanned from the current source each run)
+    "SpecKitV.Props.GlobalStateGen": ["GlobalStateGen.gen_globalState_dsp"],
 }
 CONTRACTS = [
     "np.pad(mode='edge') holds the end values; np.pad(default) pads zeros; np.correlate(a, v, 'valid')[n] = sum_k a[n+k] v[k]; "
